@@ -219,7 +219,7 @@ IDENTITY_CALLS = {
     "std::convert::From::from", "std::convert::Into::into", "std::clone::Clone::clone",
     "std::borrow::Borrow::borrow", "std::convert::identity", "std::borrow::ToOwned::to_owned",
     # views of the same string / slice / vector contents
-    "std::string::String::as_str", "std::ops::Deref::deref", "std::convert::AsRef::as_ref", "std::vec::Vec::<T, A>::as_slice",
+    "std::string::String::as_str", "std::ops::Deref::deref", "std::convert::AsRef::as_ref", "std::convert::AsMut::as_mut", "std::vec::Vec::<T, A>::as_slice",
     "std::vec::Vec::<T>::as_slice", "std::string::String::as_mut_str", "std::ops::DerefMut::deref_mut",
     # borrowed views of an Option: the same optional value
     "std::option::Option::<T>::as_ref", "std::option::Option::<T>::as_mut", "std::option::Option::<T>::as_deref",
